@@ -45,6 +45,8 @@ inductive VErr where
 /-- Ways the modelled Go code can crash. `stackOverflow` is fatal in Go (not recoverable). -/
 inductive CPanic where
   | index | slice | stackOverflow
+  | typeAssert   -- `x.(T)` on a value of another dynamic type
+  | explicit     -- a `panic("…")` call of the code
   deriving DecidableEq, Repr, Inhabited
 
 /-- Result of a modelled compiler function. -/
